@@ -15,6 +15,7 @@ import (
 	"net/http"
 	"net/url"
 	"os"
+	"runtime"
 	"sort"
 	"strings"
 	"sync"
@@ -41,10 +42,11 @@ func (i idT) key() string { return fmt.Sprintf("%s/%d", i.F, i.K) }
 func (i idT) junk() bool  { return i.F == "junk" || i.F == "" || i.F == "none" }
 
 type offerT struct {
-	To   string `json:"to"`
-	Iss  string `json:"iss"`
-	Code string `json:"code"`
-	Typ  string `json:"typ"`
+	To    string `json:"to"`
+	Iss   string `json:"iss"`
+	Claim string `json:"claim"` // the credential_issuer the metadata served by Iss claims to be
+	Code  string `json:"code"`
+	Typ   string `json:"typ"`
 }
 
 type proofT struct {
@@ -68,6 +70,7 @@ type stepT struct {
 	Subj   string   `json:"subj,omitempty"`
 	O      *offerT  `json:"o,omitempty"`
 	Again  bool     `json:"again,omitempty"`
+	Abort  bool     `json:"abort,omitempty"`
 	P      string   `json:"p,omitempty"`
 	Code   string   `json:"code,omitempty"`
 	Hit    bool     `json:"hit,omitempty"`
@@ -176,6 +179,7 @@ type run struct {
 	holder  []holderObs
 	nIssued int
 	nCross  int
+	nForge  int
 }
 
 type holderObs struct {
@@ -458,10 +462,14 @@ func (r *run) install() {
 			return jsonResponse(200, map[string]string{"status": "credential_received"})
 		}
 		if from == "NW" && req.Method == "POST" && r.actorOf(goid()) == "W" && r.sc.Mode != "honest" {
+			d := "go"
 			if strings.HasSuffix(path, "/token") {
-				r.sched.At("W", "tok")
+				d = r.sched.At("W", "tok")
 			} else if strings.HasSuffix(path, "/openid4vci/credential") {
-				r.sched.At("W", "cred")
+				d = r.sched.At("W", "cred")
+			}
+			if d == "dead" { // the script is over: a straggler must not reach the issuer
+				return jsonResponse(503, map[string]string{"error": "script is over"})
 			}
 		}
 		return nil
@@ -481,7 +489,7 @@ func (r *run) install() {
 				}
 				d = r.sched.At("W", "credresp")
 			}
-			if d == "lost" {
+			if d == "lost" || d == "dead" {
 				return nil
 			}
 		}
@@ -520,7 +528,11 @@ func (r *run) rogueServe(req *http.Request, body []byte) *http.Response {
 	case hostRogue:
 		switch {
 		case strings.HasSuffix(path, "/.well-known/openid-credential-issuer"):
-			return jsonResponse(200, map[string]interface{}{"credential_issuer": r.w.rogueID, "credential_endpoint": r.w.rogueID + "/openid4vci/credential",
+			claim := r.w.rogueID
+			if r.wcur != nil && r.wcur.offer.Claim == "I" {
+				claim = r.w.I.identifier // the rogue issuer's metadata claims to be the honest issuer
+			}
+			return jsonResponse(200, map[string]interface{}{"credential_issuer": claim, "credential_endpoint": r.w.rogueID + "/openid4vci/credential",
 				"credentials_supported": []interface{}{}})
 		case strings.HasSuffix(path, "/.well-known/oauth-authorization-server"):
 			return jsonResponse(200, map[string]interface{}{"issuer": r.w.rogueID, "token_endpoint": r.w.rogueID + "/token"})
@@ -675,9 +687,12 @@ func (r *run) stepRecv(st stepT) {
 		return
 	}
 	r.wpos = pos
-	r.emit(map[string]interface{}{"ev": "recv", "o": st.O, "again": st.Again})
+	r.emit(map[string]interface{}{"ev": "recv", "o": st.O, "again": st.Again, "abort": pos == "done"})
 	if pos == "done" {
 		r.finishW("recv")
+	}
+	if (pos == "done") != st.Abort {
+		r.drift("Recv: model abort=%v real position %q", st.Abort, pos)
 	}
 }
 
@@ -1022,15 +1037,25 @@ func (r *run) stepACred(st stepT) {
 			}
 			claims["nonce"] = n
 		}
-		kid := r.w.A.kid
+		kid, embed := r.w.A.kid, false
 		if p.Kid == "W" {
-			kid = r.w.W.kid // signed with the attacker's key all the same: the signature does not verify
+			// "a proof that names a key of W but was not made with it": signed with the attacker's key all the same;
+			// three realisations in turn: W's kid, W's kid plus the attacker's key embedded as jwk header, an unknown kid of W
+			r.nForge++
+			switch r.nForge % 3 {
+			case 0:
+				kid = r.w.W.kid
+			case 1:
+				kid, embed = r.w.W.kid, true
+			case 2:
+				kid = r.w.W.id.String() + "#k2"
+			}
 		}
 		typ := "openid4vci-proof+jwt"
 		if !p.Typ {
 			typ = "JWT"
 		}
-		j := r.w.signJWT(kid, typ, claims)
+		j := r.w.signJWT(kid, typ, claims, embed)
 		jwt = &j
 	}
 	x := r.attackerRequest(bearer, jwt, st.Rtyp)
@@ -1236,7 +1261,7 @@ func (r *run) honest() {
 	if got != nil {
 		r.res.Stats["honest_completed"] = 1
 		r.storedW[f.credID] = true
-		r.holder = append(r.holder, holderObs{offer: offerT{"W", "I", "f1", "T1"}, stored: []string{f.credID}, status: 200})
+		r.holder = append(r.holder, holderObs{offer: offerT{To: "W", Iss: "I", Claim: "I", Code: "f1", Typ: "T1"}, stored: []string{f.credID}, status: 200})
 	} else {
 		r.violate("honest-flow-incomplete", map[string]interface{}{}, "an offer nobody interfered with did not end with the credential in the wallet's store")
 	}
@@ -1262,7 +1287,17 @@ func TestDriver(t *testing.T) {
 	if err := json.Unmarshal(raw, &in); err != nil {
 		t.Fatal(err)
 	}
-	w := newWorld(t)
+	// two nodes with their embedded services come up in well under a second; a start that hangs (two processes of this
+	// machine picked the same free TCP port for the embedded NATS server) is given up, the caller starts the shard again
+	ready := make(chan *world, 1)
+	go func() { ready <- newWorld(t) }()
+	var w *world
+	select {
+	case w = <-ready:
+	case <-time.After(60 * time.Second):
+		fmt.Println("WORLD-START-TIMEOUT")
+		os.Exit(3)
+	}
 	out, err := os.Create(outPath)
 	if err != nil {
 		t.Fatal(err)
@@ -1272,7 +1307,20 @@ func TestDriver(t *testing.T) {
 	defer bw.Flush()
 	enc := json.NewEncoder(bw)
 	for _, sc := range in.Scripts {
-		res := w.runScript(sc)
-		_ = enc.Encode(res)
+		// a script takes milliseconds; one that does not come back is given up together with its process (the caller runs
+		// the shard again) and leaves its goroutine dump behind for diagnosis
+		done := make(chan result, 1)
+		go func(sc script) { done <- w.runScript(sc) }(sc)
+		select {
+		case res := <-done:
+			_ = enc.Encode(res)
+		case <-time.After(90 * time.Second):
+			buf := make([]byte, 4<<20)
+			n := runtime.Stack(buf, true)
+			_ = os.WriteFile("/tmp/verif-x03-hang.txt", append([]byte("script "+sc.ID+"\n"), buf[:n]...), 0o644)
+			fmt.Println("SCRIPT-HANG", sc.ID)
+			_ = bw.Flush()
+			os.Exit(4)
+		}
 	}
 }
